@@ -200,6 +200,10 @@ func harmlessBetween(c ssa.CallInstruction) bool {
 	case "k8s.io/klog", "fmt", "strings", "time", mod + "/pkg/util/tracing":
 		return true
 	}
+	// read-only accessors of the limiter itself
+	if o.Pkg().Path() == pkgFC && (o.Name() == "String" || o.Name() == "Type") {
+		return true
+	}
 	return false
 }
 
